@@ -100,6 +100,15 @@ def sources(tier, seed, ctx):
     for name in ('aig', 'xaig'):
         for j in range(0, len(models), 40):
             srcs.append({'k': 'models', 'db': name, 'models': models[j:j + 40]})
+    # the size measure of the don't-care lookup is a parameter (exclusion_list): the documented default, nothing
+    # excluded, only inputs, and lists under which some stored circuits measure 0 (parity / conjunction gates free)
+    EXCL = [[], ['INPUT'], ['INPUT', 'NOT', 'XOR', 'NXOR'], ['INPUT', 'AND', 'OR', 'NAND', 'NOR'], ['INPUT', 'NOT', 'IFF', 'AND']]
+    for name in ('aig', 'xaig'):
+        for e, excl in enumerate(EXCL):
+            step = len(EXCL) * (2 if tier == 'quick' else 1)
+            sub = models[e::step]
+            for j in range(0, len(sub), 40):
+                srcs.append({'k': 'models', 'db': name, 'models': sub[j:j + 40], 'excl': excl})
     ctx['gen_note'] = f'{total} database entries ({ctx["sizes"]}), {len(tables)} tables x 2 databases, {len(models)} models x 2 databases'
     return srcs
 
@@ -164,12 +173,30 @@ def record(src):
             n = len(mt[0]).bit_length() - 1
             case = {'kind': 'mlookup', 'db': src['db'], 'n': n, 'mtt': mt, 'exc': '', 'found': False, 'comp_sizes': [],
                     'src': {'k': 'models', 'db': src['db'], 'models': [mt]}}
+            kw = {}
+            excl_types = None
+            if 'excl' in src:
+                from cirbo.core.circuit import gate as G
+                excl_types = [getattr(G, t) for t in src['excl']]
+                kw = {'exclusion_list': excl_types}
+                case['excl'] = list(src['excl'])
+                case['src']['excl'] = list(src['excl'])
             try:
                 model = [[DontCare if v == 2 else bool(v) for v in t] for t in mt]
-                res = db.get_by_raw_truth_table_model(model)
+                # every third model arrives deep-copied / pickled: its markers are equal to DontCare, not identical
+                how = sum(map(sum, mt)) % 3
+                if how == 1:
+                    import copy as _copy
+                    model = _copy.deepcopy(model)
+                    case['model_via'] = 'deepcopy'
+                elif how == 2 and len(mt[0]) >= 8:
+                    import pickle as _pickle
+                    model = _pickle.loads(_pickle.dumps(model))
+                    case['model_via'] = 'pickle'
+                res = db.get_by_raw_truth_table_model(model, **kw)
                 if sum(map(sum, mt)) % 2 == 0:
                     # the caller looks the SAME model object up again (its table must not have been touched)
-                    res = db.get_by_raw_truth_table_model(model)
+                    res = db.get_by_raw_truth_table_model(model, **kw)
                     case['asked_twice'] = True
                 if res is not None:
                     case['found'] = True
@@ -180,7 +207,7 @@ def record(src):
                     for (o, r), v in zip(dc, sub):
                         full[o][r] = v
                     c2 = db.get_by_raw_truth_table([[bool(v) for v in t] for t in full])
-                    case['comp_sizes'].append(c2.gates_number() if c2 is not None else -1)
+                    case['comp_sizes'].append((c2.gates_number(excl_types) if excl_types is not None else c2.gates_number()) if c2 is not None else -1)
             except Exception as e:
                 case['exc'] = type(e).__name__
             out.append(case)
